@@ -337,11 +337,14 @@ class PiecewiseConstantBirthDeath(Distribution):
                 torch.searchsorted(times, y, right=True) - 1, max=m - 1
             )
             # true if the node of the given index occurs at the time of a
-            # rho-sampling event
+            # rho-sampling event (rho_i acts at times[i+1])
             is_rho_tip = (
-                torch.sum(times.unsqueeze(-2) == y.unsqueeze(-1), -1)
-                * rho.gather(-1, indices_y)
-                > 0.0
+                torch.sum(
+                    (times[..., 1:].unsqueeze(-2) == y.unsqueeze(-1))
+                    * (rho.unsqueeze(-2) > 0.0),
+                    -1,
+                )
+                > 0
             )
 
             if self.removal_probability is not None:
@@ -378,12 +381,21 @@ class PiecewiseConstantBirthDeath(Distribution):
                     * (~is_rho_tip)
                 ).sum(-1)
 
+        # number of leaves sampled at time t_i for 1,...,m
+        N = torch.sum(
+            times[..., 1:].unsqueeze(-2) == torch.unsqueeze(y, -1),
+            -2,
+        )
+
         # last term
         if m > 1:
             # number of degree 2 vertices at time t_i for 1,...,m-1 *(n_m=0)
+            # a leaf sampled exactly at t_i is rho-sampled if rho_i > 0 (its lineage
+            # ends at t_i), otherwise it belongs to the interval starting at t_i
             ni = (
                 torch.sum(x.unsqueeze(-2) < times[..., 1:].unsqueeze(-1), -1)
-                - torch.sum(y.unsqueeze(-2) <= times[..., 1:].unsqueeze(-1), -1)
+                - torch.sum(y.unsqueeze(-2) < times[..., 1:].unsqueeze(-1), -1)
+                - N * (rho > 0.0)
             )[..., :-1] + 1.0
 
             # contemporenaous term
@@ -394,12 +406,6 @@ class PiecewiseConstantBirthDeath(Distribution):
                     + torch.log(1.0 - rho[..., :-1])
                 )
             ).sum(-1)
-
-        # number of leaves sampled at time t_i for 1,...,m
-        N = torch.sum(
-            times[..., 1:].unsqueeze(-2) == torch.unsqueeze(y, -1),
-            -2,
-        )
 
         if self.removal_probability is not None and m > 1:
             r = self.removal_probability.gather(-1, indices_y)[..., 1:]
@@ -414,8 +420,7 @@ class PiecewiseConstantBirthDeath(Distribution):
 
         mask = (N > 0).logical_and(rho > 0.0)
         if torch.any(mask):
-            p = torch.masked_select(N, mask) * torch.masked_select(rho, mask).log()
-            log_p += p.squeeze() if log_p.dim() == 0 else p
+            log_p += (N * torch.where(mask, rho, torch.ones_like(rho)).log()).sum(-1)
 
         if self.removal_probability is not None:
             log_p += torch.tensor(2.0).log() * (taxa_shape[-1] - 1)
